@@ -576,18 +576,14 @@ class Visitor(ast.NodeVisitor):
             raise NotImplementedError("Unhandled op of {}: {}".format(node, node.op))
 
         result = None  # type: Optional[Any]
-        has_placeholder = False
         for value_node in node.values:
             value = self.visit(value_node)
 
             # Please see "NOTE ABOUT PLACEHOLDERS AND RE-COMPUTATION"
             if value is PLACEHOLDER:
-                has_placeholder = True
-
-            if has_placeholder:
-                # The outcome is unknown; the remaining operands are still visited so that
-                # the values independent of the placeholders are re-computed.
-                continue
+                # The outcome is unknown (*e.g.*, it depends on a variable of a comprehension), so it is also
+                # unknown whether Python evaluates the remaining operands at all. Do not evaluate them either.
+                return PLACEHOLDER
 
             result = value
 
@@ -598,9 +594,6 @@ class Visitor(ast.NodeVisitor):
 
             if isinstance(node.op, ast.Or) and result:
                 break
-
-        if has_placeholder:
-            return PLACEHOLDER
 
         self.recomputed_values[node] = result
         return result
@@ -620,9 +613,10 @@ class Visitor(ast.NodeVisitor):
                 has_placeholder = True
 
             if has_placeholder:
-                # The outcome is unknown; the remaining comparators are still visited so that
-                # the values independent of the placeholders are re-computed.
-                continue
+                # The outcome is unknown (*e.g.*, it depends on a variable of a comprehension). Python always
+                # evaluates both operands of the first comparison, but the remaining comparators only if
+                # the previous comparisons hold, so they must not be evaluated here.
+                break
 
             if isinstance(op, ast.Eq):
                 comparison = left == comparator
